@@ -457,7 +457,9 @@ func TestVerifDriver(t *testing.T) {
 			if vSkipOp(v.Op) {
 				continue
 			}
+			vForce = v.Mode
 			rec.emit(v.Op, v.In, vRun(v.Op, v.In))
+			vForce = ""
 		}
 		flush()
 		return
